@@ -1,57 +1,71 @@
 """C16 — unbranched sectioning partitions the tree into maximal chains, altering nothing.
 
-Tie: hand model (lean/NmlVerif/Model/Section.lean) + correspondence on generated cells (real
-`Cell.create_unbranched_segment_group_branches` vs `Drivers/C16.lean` on the same cell), and an independent
-harness-side oracle that evaluates the full property statement on the real code (before/after snapshots).
+Tie: hand model (lean/NmlVerif/Model/Section.lean) + correspondence on generated cells AND HISTORIES (several
+operations on ONE Cell object: real `Cell.create_unbranched_segment_group_branches` / `get_segment_adjacency_list`
+/ `get_graph` / appends vs `Drivers/C16.lean`, state compared after every operation incl. the cached
+`adjacency_list`), an independent harness-side oracle that evaluates the full property statement on the real code
+after EVERY sectioning call (relative to the cell at that time), and the translator
+`translators/py2lean_section.py` (regenerates `lean/NmlVerif/Gen/Section.lean` from the two sources on every run).
 All numbers are dyadic rationals so that the float arithmetic of `get_actual_proximal` is exact; they travel as
 [num, den].
 """
 import copy
 import itertools
 import json
+import os
 import re
 import sys
 from fractions import Fraction as Fr
 
 import fw
 
-LEAN_PROPS = ["NmlVerif.Props.C16"]
+LEAN_PROPS = ["NmlVerif.Props.C16", "NmlVerif.Props.C16Gen"]
+LEAN_EXTRA = ["NmlVerif.Proofs.SectionLegacy"]
 # helper theorems that carry the argument (audited for axioms as well)
-EXTRA_THEOREMS = ["NmlVerif.Section.run_spec", "NmlVerif.Section.sectionPhase_spec", "NmlVerif.Section.sectD_spec",
-                  "NmlVerif.Section.sectKids_spec", "NmlVerif.Section.hypB_sound", "NmlVerif.Section.buildTree_sound",
+EXTRA_THEOREMS = ["NmlVerif.Section.run_spec", "NmlVerif.Section.sectionPhase_spec", "NmlVerif.Section.sectLoop_spec",
+                  "NmlVerif.Section.walk_spec", "NmlVerif.Section.hypB_sound", "NmlVerif.Section.buildTree_sound",
                   "NmlVerif.Section.lookup_adjacency", "NmlVerif.Section.genName_inj",
-                  "NmlVerif.Section.actualProximal_sound", "NmlVerif.Section.Refines.implied_iff"]
+                  "NmlVerif.Section.actualProximal_sound", "NmlVerif.Section.Refines.implied_iff",
+                  "NmlVerif.Section.exists_tree", "NmlVerif.Section.exists_unfolding", "NmlVerif.Section.tree_size_le",
+                  "NmlVerif.Section.WfCell.wf", "NmlVerif.Section.RootedAt.acyclic", "NmlVerif.Section.exists_frames",
+                  "NmlVerif.Section.callOK_of_wf", "NmlVerif.Section.call_good", "NmlVerif.Section.history_ok",
+                  "NmlVerif.Section.Refines.adjacency"]
 LEVEL = "proof"
-RULE = ("cells = random segment trees / forests (1-40 segments; exhaustive parent structures up to 6 (quick) or 7 "
-        "(thorough) segments; chains longer than the recursion limit; caterpillars) with arbitrary non-contiguous "
-        "ids, shuffled document order, fraction_along in {0,1/4,1/2,1}, dyadic coordinates, explicit or implied "
-        "proximals, 0-5 pre-existing groups (default names, includes, duplicate members, section-marked, "
-        "generated-looking names) x root (true root or inner segment) x use_convention x reorder x optimise x "
-        "adjacency cache (none/fresh/stale/hand-made) x available Python frames; a case is non-trivial when the "
-        "tree reachable from the root has >= 1 branch point (>= 3 new groups); distinct = distinct canonical case")
+RULE = ("cell objects = random segment trees / forests (1-40 segments; exhaustive parent structures up to 6 (quick) or "
+        "7 (thorough) segments; chains longer than the recursion limit; caterpillars deeper than the frame budget) with "
+        "arbitrary non-contiguous ids, shuffled document order, fraction_along in {0,1/4,1/2,1}, dyadic coordinates, "
+        "explicit or implied proximals, 0-5 pre-existing groups (default names, includes, duplicate members, "
+        "section-marked, generated-looking names) x adjacency cache (none/fresh/stale/hand-made) x available Python "
+        "frames x a HISTORY of 1-5 sectioning calls on the same object (roots: true root, inner segments, repeats, "
+        "sub-trees of earlier roots; use_convention x reorder x optimise per call) interleaved with "
+        "get_segment_adjacency_list / get_graph / appended segments / added groups; a case is non-trivial when the "
+        "tree reachable from the first root has >= 1 branch point (>= 3 new groups); distinct = distinct canonical case")
 TRUST = [
     "hand-written model of Cell.create_unbranched_segment_group_branches/__sectionise/add_(unbranched_)segment_group/"
     "get_segment_group/get_segment_adjacency_list/get_segment/get_actual_proximal/reorder_segment_groups, tied by "
-    "correspondence only",
+    "correspondence (state after every operation of a history) and, for the control-flow skeleton of "
+    "create_unbranched_segment_group_branches/__sectionise, by translation (Gen/Section.lean = pinned skeleton)",
     "optimise_segment_group on a group WITH includes is a parameter of the model (property C14); on a group without "
     "includes it is modelled (member de-duplication)",
     "CPython f-string formatting of ints, float arithmetic on dyadic values (exact), the generic add()/validate() "
     "of generateDS objects (modelled as: append unless an equal Member exists)",
-    "the interpreter's recursion limit is a model parameter `lim`; the harness sets the limit relative to the "
-    "call depth and stays >= 10 frames away from the threshold",
+    "the interpreter's recursion limit is a model parameter `lim`, consumed only by get_actual_proximal (the "
+    "sectioniser is iterative); the harness sets the limit relative to the call depth, stays >= 10 frames away from "
+    "the threshold, and re-measures the frame offset on every run (evidence: frame_offset_measured)",
 ]
 ASSUMPTIONS = [
-    "theorems assume: distinct segment ids; the adjacency list unfolds from the root to a tree without repeated ids "
-    "(evaluated per case by the driver: hypB); no stale adjacency_list cache; no pre-existing group carrying one of "
-    "the generated names; enough Python frames (nest depth + proximal chain below the limit) -- the three excluded "
-    "classes are known findings reproduced every run",
+    "theorems assume: distinct segment ids; acyclic parent pointers (the tree is constructed in Lean: exists_tree); "
+    "an adjacency_list cache that is absent or up to date; no pre-existing group named seg_group_<n>_seg_<i> with "
+    "n >= number of groups; enough Python frames for get_actual_proximal on the chain heads -- the three excluded "
+    "classes are known findings reproduced every run; the per-case flag hypB (driver) says when they hold",
     "with optimise_segment_groups=True a pre-existing group that has includes or duplicate members is rewritten by "
     "optimise_segment_group (C14); for it C16 checks id, neuro_lex_id, include set and resolved segment set only",
 ]
 
 SECTION = "sao864921383"
 GEN_RE = re.compile(r"^seg_group_(0|[1-9][0-9]*)_seg_(0|[1-9][0-9]*)$")
-FRAME_OFFSET = 9          # lim = F - FRAME_OFFSET (calibrated: nest depth D needs F >= D + 10 frames)
+FRAME_OFFSET = 2          # lim = F - FRAME_OFFSET (a proximal chain of depth D below __sectionise needs F >= D + 3);
+FRAME_FLOOR = 40          # below ~17 frames the library fails in code the model does not follow (add/validate)
 DEFAULT_GROUPS = ["soma_group", "axon_group", "dendrite_group", "all"]
 
 
@@ -87,6 +101,11 @@ class Ref:
         for s in segs:                                   # document order
             if s["parent"] is not None:
                 self.kids.setdefault(s["parent"], []).append(s["id"])
+
+    def adjacency(self):
+        """the adjacency list the morphology defines: [[parent, [children in document order]], ...], parents in the
+        order of their first child"""
+        return [[p, list(cs)] for p, cs in self.kids.items()]
 
     def reach(self, root):
         out, todo, seen = [], [root], set()
@@ -138,30 +157,38 @@ class Ref:
             cur = s["parent"]
 
     def nest_and_pressure(self, root):
-        """(nest depth of __sectionise below the first frame, frames the nesting needs, frames the deepest
-        get_actual_proximal chain needs) -- as the model counts them"""
+        """(number of branch points nested on a root-to-leaf path -- what the recursive sectioniser needed frames
+        for and the iterative one does not --, frames the old nesting would need, frames the deepest
+        get_actual_proximal chain needs below create_unbranched_segment_group_branches: 1 for __sectionise + the
+        chain) -- as the model counts them"""
         nest, pn, pa = 0, 1, 1
         r = self.by_id.get(root)
         if r is not None and r["prox"] is None and r["parent"] is not None:
             pa = max(pa, self.ap_depth(root))
         todo = [(root, 0)]
-        while todo:
+        seen = 0
+        while todo and seen <= 4 * len(self.segs) + 8:
+            seen += 1
             x, d = todo.pop()
             ks = self.kids.get(x, [])
-            while len(ks) == 1:
+            steps = 0
+            while len(ks) == 1 and steps <= len(self.segs):
+                steps += 1
                 x = ks[0]
                 ks = self.kids.get(x, [])
             if len(ks) > 1:
                 nest = max(nest, d + 1)
                 pn = max(pn, d + 2)
                 for c in ks:
-                    pa = max(pa, d + 1 + self.ap_depth(c))
+                    pa = max(pa, 1 + self.ap_depth(c))
                     todo.append((c, d + 1))
         return nest, pn, pa
 
 
 # ---------------------------------------------------------------- generator
 IDS_POOL = [0, 1, 2, 3, 5, 7, 8, 10, 11, 19, 20, 21, 42, 99, 100, 101, 255, 1000, 4096, 99999, 123456, 2 ** 31]
+GROUP_NAMES = ["soma_group", "axon_group", "dendrite_group", "all", "g1", "g9", "g10", "dend_a", "apical",
+               "seg_group_x", "seg_group_1_seg", "Seg_group_0_seg_0"]
 
 
 def rand_pt(rng):
@@ -221,8 +248,7 @@ def mk_segs(rng, par, ids=None, fracs=(Fr(0), Fr(1, 4), Fr(1, 2), Fr(1)), p_expl
 
 def mk_groups(rng, segs, root, collide=False):
     ids = [s["id"] for s in segs]
-    names = rng.sample(["soma_group", "axon_group", "dendrite_group", "all", "g1", "g9", "g10", "dend_a", "apical",
-                        "seg_group_x", "seg_group_1_seg", "Seg_group_0_seg_0"], rng.choice([0, 0, 1, 2, 3, 4, 5]))
+    names = rng.sample(GROUP_NAMES, rng.choice([0, 0, 1, 2, 3, 4, 5]))
     groups = []
     for nm in names:
         g = {"id": nm, "nlx": rng.choice([None, None, "GO:0043025", SECTION]), "members": [], "includes": [],
@@ -245,26 +271,99 @@ def mk_groups(rng, segs, root, collide=False):
     return groups
 
 
-def finish_case(rng, segs, root=None, groups=None, cache=None, fail_frames=False, flags=None):
-    ref = Ref(segs)
+def sect_op(root, use_convention=True, reorder=True, optimise=True):
+    return {"op": "sect", "root": root, "use_convention": use_convention, "reorder": reorder, "optimise": optimise}
+
+
+def final_segs(case):
+    return list(case["segs"]) + [o["seg"] for o in case["ops"] if o["op"] == "append"]
+
+
+def pressure(case):
+    """frames (as the model counts them) that the sectioning calls of the history need, on the final morphology"""
+    ref = Ref(final_segs(case))
+    pa = 1
+    for o in case["ops"]:
+        if o["op"] == "sect":
+            pa = max(pa, ref.nest_and_pressure(o["root"])[2])
+    return pa
+
+
+def finish_case(rng, segs, root=None, groups=None, cache=None, fail_frames=False, flags=None, more_ops=None):
     if root is None:
         roots = [s["id"] for s in segs if s["parent"] is None]
         root = rng.choice(roots) if rng.random() < 0.7 else rng.choice(segs)["id"]
     if groups is None:
         groups = mk_groups(rng, segs, root, collide=rng.random() < 0.06)
-    nest, pn, pa = ref.nest_and_pressure(root)
-    press = max(pn, pa)
-    fail_frames = fail_frames and press >= 60             # both sides must fail well away from the threshold
+    fl = flags or {}
+    case = {"segs": segs, "groups": groups, "cache": cache, "F": None,
+            "ops": [sect_op(root, fl.get("use_convention", rng.random() < 0.5), fl.get("reorder", rng.random() < 0.5),
+                            fl.get("optimise", rng.random() < 0.5))]}
+    if more_ops:
+        more_ops(rng, case)
+    press = pressure(case)
+    fail_frames = fail_frames and press >= 60 and len(case["ops"]) == 1   # both sides must fail well away from the threshold
     if fail_frames:
         lim = press - 12 - rng.randint(0, 10)
+        case["F"] = lim + FRAME_OFFSET
     else:
         lim = press + 10 + rng.randint(0, 30)
-    F = max(lim + FRAME_OFFSET, 40) if not fail_frames else lim + FRAME_OFFSET
-    fl = flags or {}
-    return {"segs": segs, "groups": groups, "root": root,
-            "use_convention": fl.get("use_convention", rng.random() < 0.5),
-            "reorder": fl.get("reorder", rng.random() < 0.5), "optimise": fl.get("optimise", rng.random() < 0.5),
-            "cache": cache, "F": F}
+        case["F"] = max(lim + FRAME_OFFSET, FRAME_FLOOR)
+    return case
+
+
+def new_seg(rng, segs):
+    """a segment to append to the morphology: new id, existing parent, implied proximal exactly representable"""
+    ids = [s["id"] for s in segs]
+    i = rng.choice([max(ids) + 1, max(ids) + rng.randint(2, 50)] + [x for x in IDS_POOL if x not in ids][:3])
+    s = {"id": i, "parent": rng.choice(ids), "frac": q(rng.choice([Fr(1), Fr(1), Fr(1, 2), Fr(0)])), "prox": None,
+         "dist": rand_pt(rng)}
+    if rng.random() < 0.3:
+        s["prox"] = rand_pt(rng)
+    v = Ref(segs + [s]).implied(i) if s["prox"] is None else None
+    if s["prox"] is None and (v is None or any(c.denominator > 2 ** 24 or not exact_float(c) for c in v)):
+        s["frac"] = [1, 1]
+    return s
+
+
+def add_history(rng, case):
+    """1-4 further sectioning calls on the same object, interleaved with operations that read / refresh the cached
+    adjacency list or change the cell"""
+    segs = list(case["segs"])
+    roots = [case["ops"][0]["root"]]
+    gnames = [g["id"] for g in case["groups"]]
+    for _ in range(rng.choice([1, 1, 2, 2, 3, 4])):
+        r = rng.random()
+        if r < 0.20:
+            case["ops"].append({"op": "refresh"})
+        elif r < 0.35:
+            case["ops"].append({"op": "ensure"})
+        elif r < 0.50:
+            free = [n for n in GROUP_NAMES + ["basal", "trunk", "tuft"] if n not in gnames]
+            if free:
+                nm = rng.choice(free)
+                gnames.append(nm)
+                ids = [s["id"] for s in segs]
+                case["ops"].append({"op": "addGroup", "group": {
+                    "id": nm, "nlx": rng.choice([None, SECTION]), "members": rng.sample(ids, min(len(ids), rng.randint(0, 3))),
+                    "includes": [], "notes": None}})
+        elif r < 0.70:
+            s = new_seg(rng, segs)
+            segs.append(s)
+            case["ops"].append({"op": "append", "seg": s})
+            if rng.random() < 0.75:                        # ... and the cache is brought up to date (else: stale)
+                case["ops"].append({"op": "refresh"})
+        ids = [s["id"] for s in segs]
+        r = rng.random()
+        if r < 0.35:
+            root = rng.choice(roots)                       # a root used before
+        elif r < 0.75:
+            root = rng.choice(ids)                         # any segment: sub-trees of earlier roots, other components
+        else:
+            tr = [s["id"] for s in segs if s["parent"] is None]
+            root = rng.choice(tr or ids)
+        roots.append(root)
+        case["ops"].append(sect_op(root, rng.random() < 0.5, rng.random() < 0.5, rng.random() < 0.5))
 
 
 def gen_case(rng, big=False):
@@ -289,7 +388,9 @@ def gen_case(rng, big=False):
     root = None
     if rng.random() < 0.02:                               # malformed stream: a root id that is no segment
         root = max(s["id"] for s in segs) + 1 + rng.randrange(5)
-    return finish_case(rng, segs, root=root, cache=cache, fail_frames=(rng.random() < 0.04))
+    hist = root is None and not isinstance(cache, dict) and n <= 20 and rng.random() < 0.4
+    return finish_case(rng, segs, root=root, cache=cache, fail_frames=(rng.random() < 0.04),
+                       more_ops=add_history if hist else None)
 
 
 def _adj_small(adj):
@@ -307,12 +408,13 @@ def _adj_small(adj):
 
 def exhaustive_cases(rng, nmax):
     """every parent structure (parent of segment k among 0..k-1) with <= nmax segments; ids, fractions, proximals,
-    document order and flags drawn at random"""
+    document order and flags drawn at random; every fourth one continues with further calls on the same object"""
     for n in range(1, nmax + 1):
         for tail in itertools.product(*[range(k) for k in range(1, n)]):
             par = [None] + list(tail)
             segs = mk_segs(rng, par)
-            yield finish_case(rng, segs, groups=(mk_groups(rng, segs, segs[0]["id"]) if rng.random() < 0.3 else []))
+            yield finish_case(rng, segs, groups=(mk_groups(rng, segs, segs[0]["id"]) if rng.random() < 0.3 else []),
+                              more_ops=add_history if rng.random() < 0.25 else None)
 
 
 def chain_case(rng, n, frac1=True):
@@ -322,7 +424,7 @@ def chain_case(rng, n, frac1=True):
     return finish_case(rng, segs, root=7, groups=[], flags={"reorder": True, "optimise": True})
 
 
-def caterpillar_case(rng, depth, fail, frac1=True):
+def caterpillar_case(rng, depth, fail, frac1=True, small_frames=False):
     par, spine = [None], 0
     for _ in range(depth):
         a = len(par)
@@ -331,10 +433,50 @@ def caterpillar_case(rng, depth, fail, frac1=True):
             par.append(spine)
         spine = a + rng.randrange(2)
     segs = mk_segs(rng, par, p_explicit=0.1, p_frac1=1.0 if frac1 else 0.7, shuffle=False)
-    return finish_case(rng, segs, root=segs[0]["id"], groups=[], fail_frames=fail)
+    c = finish_case(rng, segs, root=segs[0]["id"], groups=[], fail_frames=fail)
+    if small_frames and len(c["ops"]) == 1:
+        # far fewer frames than nested branch points (the recursive sectioniser needed depth + 16), yet >= 10 above
+        # what the proximal chains need
+        c["F"] = max(pressure(c) + 12 + FRAME_OFFSET, FRAME_FLOOR)
+    return c
+
+
+def fchain_case(rng, n, fail):
+    """a long run of segments without explicit proximal attached at fraction 0 (a few at 1/2 near the top), a fork
+    at its end and twigs along it: every fork child needs one get_actual_proximal frame per ancestor of the run"""
+    par = [None] + list(range(n - 1))
+    fr_ = [None] + [Fr(1, 2) if k <= 6 and rng.random() < 0.4 else Fr(0) for k in range(1, n)]
+    twigs = sorted(rng.sample(range(1, n - 1), min(n - 2, rng.randint(0, 3))))
+    for tw in twigs:
+        par.append(tw)
+        fr_.append(rng.choice([Fr(0), Fr(1)]))
+    for _ in range(rng.randint(2, 3)):
+        par.append(n - 1)
+        fr_.append(rng.choice([Fr(0), Fr(0), Fr(1, 2)]))
+    ids = rng.sample(range(0, 4 * len(par)), len(par))
+    segs = []
+    for k in range(len(par)):
+        segs.append({"id": ids[k], "parent": None if par[k] is None else ids[par[k]],
+                     "frac": [1, 1] if par[k] is None else q(fr_[k]),
+                     "prox": rand_pt(rng) if par[k] is None else None, "dist": rand_pt(rng)})
+    for s in segs:
+        v = Ref(segs).implied(s["id"])
+        if v is None or any(c.denominator > 2 ** 24 or not exact_float(c) for c in v):
+            s["frac"] = [0, 1]
+    root = ids[0] if rng.random() < 0.7 else ids[rng.randrange(1, max(2, n // 3))]
+    return finish_case(rng, segs, root=root, groups=[], fail_frames=fail)
 
 
 # ---------------------------------------------------------------- real library
+def norm_case(case):
+    """cases stored by earlier versions describe one call at top level"""
+    if "ops" in case:
+        return case
+    c = {k: case[k] for k in ("segs", "groups", "cache", "F")}
+    c["ops"] = [sect_op(case["root"], case.get("use_convention", True), case.get("reorder", True), case.get("optimise", True))]
+    return c
+
+
 def build_cell(case, upto=None):
     import neuroml as n
     m = n.Morphology(id="m")
@@ -342,13 +484,18 @@ def build_cell(case, upto=None):
     for s in case["segs"][:upto]:
         m.segments.append(_mk_seg(s))
     for g in case["groups"]:
-        sg = n.SegmentGroup(id=g["id"], neuro_lex_id=g["nlx"], notes=g.get("notes"))
-        for x in g["members"]:
-            sg.members.append(n.Member(segments=x))
-        for x in g["includes"]:
-            sg.includes.append(n.Include(segment_groups=x))
-        m.segment_groups.append(sg)
+        m.segment_groups.append(_mk_group(g))
     return cell
+
+
+def _mk_group(g):
+    import neuroml as n
+    sg = n.SegmentGroup(id=g["id"], neuro_lex_id=g["nlx"], notes=g.get("notes"))
+    for x in g["members"]:
+        sg.members.append(n.Member(segments=x))
+    for x in g["includes"]:
+        sg.includes.append(n.Include(segment_groups=x))
+    return sg
 
 
 def _mk_seg(s):
@@ -384,11 +531,42 @@ def odump(o):
     return repr(o)
 
 
+def cache_dump(cell):
+    """`cell.adjacency_list` as [[parent, [children]], ...] in dictionary order; None when there is no such attribute"""
+    a = getattr(cell, "adjacency_list", None)
+    if a is None:
+        return None
+    try:
+        return [[k, list(v)] for k, v in a.items()]
+    except Exception as e:  # noqa
+        return "not-a-dict:%r" % (e,)
+
+
 def snapshot(cell):
     return {"segs": [odump(s) for s in cell.morphology.segments],
             "groups": [odump(g) for g in cell.morphology.segment_groups],
+            "cache": cache_dump(cell),
             "n_other": {k: (len(v) if isinstance(v, list) else (v is not None)) for k, v in vars(cell.morphology).items()
                         if k not in ("segments", "segment_groups", "parent_object_", "gds_collector_")}}
+
+
+def _pf(x):
+    a, b = x.split("/")
+    return [int(a), int(b)]
+
+
+def desc_of(snap_segs):
+    """the case-description form of the segments of a snapshot (what the oracle's `Ref` reads)"""
+    out = []
+    for s in snap_segs:
+        par = s.get("parent")
+        pr = s.get("proximal")
+        d = s.get("distal")
+        out.append({"id": s.get("id"), "parent": None if par is None else par.get("segments"),
+                    "frac": [1, 1] if par is None or par.get("fraction_along") is None else _pf(par["fraction_along"]),
+                    "prox": None if pr is None else [_pf(pr[k]) for k in ("x", "y", "z", "diameter")],
+                    "dist": [_pf(d[k]) for k in ("x", "y", "z", "diameter")]})
+    return out
 
 
 def _depth():
@@ -410,6 +588,9 @@ def call_limited(fn, F):
 
 
 def run_real(case):
+    """the history on ONE real Cell object; a snapshot (segments, groups, cached adjacency list) around every
+    operation; stops at the first operation that raises"""
+    case = norm_case(case)
     cache = case["cache"]
     if isinstance(cache, dict) and "prefix" in cache:
         cell = build_cell(case, upto=cache["prefix"])
@@ -422,22 +603,39 @@ def run_real(case):
             cell.get_segment_adjacency_list()
         elif isinstance(cache, dict):
             cell.adjacency_list = {p: list(cs) for p, cs in cache["adj"]}
-    before = snapshot(cell)
-    try:
-        call_limited(lambda: cell.create_unbranched_segment_group_branches(
-            case["root"], use_convention=case["use_convention"], reorder_segment_groups=case["reorder"],
-            optimise_segment_groups=case["optimise"]), case["F"])
-        res = "ok"
-    except RecursionError:
-        res = "RecursionError"
-    except Exception as e:  # noqa
-        res = type(e).__name__
-    after = snapshot(cell)
-    alias = 0
-    if res == "ok":
-        dist = {id(s.distal) for s in cell.morphology.segments}
-        alias = sum(1 for s in cell.morphology.segments if s.proximal is not None and id(s.proximal) in dist)
-    return {"res": res, "before": before, "after": after, "alias": alias}
+    steps = []
+    for op in case["ops"]:
+        before = snapshot(cell)
+        res, side = "ok", None
+        try:
+            if op["op"] == "sect":
+                call_limited(lambda: cell.create_unbranched_segment_group_branches(
+                    op["root"], use_convention=op["use_convention"], reorder_segment_groups=op["reorder"],
+                    optimise_segment_groups=op["optimise"]), case["F"])
+            elif op["op"] == "refresh":
+                cell.get_segment_adjacency_list()
+            elif op["op"] == "ensure":
+                try:                                     # a reader of the cache; what it computes is C13's subject
+                    cell.get_graph()
+                except Exception as e:  # noqa
+                    side = type(e).__name__
+            elif op["op"] == "append":
+                cell.morphology.segments.append(_mk_seg(op["seg"]))
+            elif op["op"] == "addGroup":
+                cell.morphology.segment_groups.append(_mk_group(op["group"]))
+        except RecursionError:
+            res = "RecursionError"
+        except Exception as e:  # noqa
+            res = type(e).__name__
+        after = snapshot(cell)
+        alias = 0
+        if res == "ok" and op["op"] == "sect":
+            dist = {id(s.distal) for s in cell.morphology.segments}
+            alias = sum(1 for s in cell.morphology.segments if s.proximal is not None and id(s.proximal) in dist)
+        steps.append({"op": op, "res": res, "before": before, "after": after, "alias": alias, "side": side})
+        if res != "ok":
+            break
+    return steps
 
 
 # ---------------------------------------------------------------- model (Lean driver)
@@ -445,14 +643,33 @@ def frames_default():
     return sys.getrecursionlimit() - _depth() - 6
 
 
+def _mseg(s):
+    return {"id": s["id"], "parent": None if s["parent"] is None else [s["parent"], s["frac"]], "prox": s["prox"],
+            "dist": s["dist"]}
+
+
+def _mgroup(g):
+    return {"id": g["id"], "nlx": g["nlx"], "members": g["members"], "includes": g["includes"]}
+
+
 def model_line(case):
-    segs = [{"id": s["id"], "parent": None if s["parent"] is None else [s["parent"], s["frac"]], "prox": s["prox"],
-             "dist": s["dist"]} for s in case["segs"]]
-    groups = [{"id": g["id"], "nlx": g["nlx"], "members": g["members"], "includes": g["includes"]} for g in case["groups"]]
-    cache = None if case["cache"] in (None, "fresh") else case["cache"]
+    case = norm_case(case)
+    cache = None if case["cache"] is None else "fresh-now" if case["cache"] == "fresh" else case["cache"]
+    ops = []
+    if cache == "fresh-now":                               # get_segment_adjacency_list() before the history
+        cache = {"prefix": len(case["segs"])}
+    for o in case["ops"]:
+        if o["op"] == "sect":
+            ops.append({"op": "sect", "root": o["root"], "reorder": o["reorder"], "optimise": o["optimise"]})
+        elif o["op"] == "append":
+            ops.append({"op": "append", "seg": _mseg(o["seg"])})
+        elif o["op"] == "addGroup":
+            ops.append({"op": "addGroup", "group": _mgroup(o["group"])})
+        else:
+            ops.append({"op": o["op"]})
     F = case["F"] if case["F"] is not None else frames_default()
-    return json.dumps({"segs": segs, "groups": groups, "root": case["root"], "reorder": case["reorder"],
-                       "optimise": case["optimise"], "cache": cache, "lim": max(F - FRAME_OFFSET, 0)})
+    return json.dumps({"segs": [_mseg(s) for s in case["segs"]], "groups": [_mgroup(g) for g in case["groups"]],
+                       "cache": cache, "lim": max(F - FRAME_OFFSET, 0), "ops": ops})
 
 
 def pstr(p):
@@ -464,11 +681,12 @@ def canon_model(m):
         return {"res": m.get("res", "driver-error:" + json.dumps(m)[:80])}
     return {"res": "ok", "prox": [[s["id"], pstr(s["prox"])] for s in m["segs"]],
             "groups": [[g["id"], g["nlx"]] + ([None, None] if g["opaque"] else [g["members"], g["includes"]])
-                       for g in m["groups"]]}
+                       for g in m["groups"]],
+            "cache": m.get("cache")}
 
 
 def canon_real(r, m):
-    """the same view of the real outcome; `m` (model output) only says which groups are not modelled (opaque)"""
+    """the same view of the real state after a step; `m` (model output) only says which groups are not modelled"""
     if r["res"] != "ok":
         return {"res": r["res"]}
 
@@ -480,7 +698,8 @@ def canon_real(r, m):
         mem = [x["segments"] for x in g.get("members", [])]
         inc = [x["segment_groups"] for x in g.get("includes", [])]
         gs.append([g.get("id"), g.get("neuro_lex_id")] + ([None, None] if k < len(opaque) and opaque[k] else [mem, inc]))
-    return {"res": "ok", "prox": [[s["id"], pr(s.get("proximal"))] for s in r["after"]["segs"]], "groups": gs}
+    return {"res": "ok", "prox": [[s["id"], pr(s.get("proximal"))] for s in r["after"]["segs"]], "groups": gs,
+            "cache": r["after"]["cache"]}
 
 
 # ---------------------------------------------------------------- full-property oracle on the real code
@@ -496,19 +715,31 @@ def closure(groups_by_id, all_ids, name, stack=()):
     return out
 
 
-def oracle(case, real):
-    """list of (check, detail) failures of the property statement on the real outcome"""
+def strip_cache(snap):
+    return {k: v for k, v in snap.items() if k != "cache"}
+
+
+def oracle(segs, op, real):
+    """list of (check, detail) failures of the property statement for ONE sectioning call, relative to the cell at
+    the time of the call: `segs` = description of the morphology just before it (from the `before` snapshot)"""
     fails = []
-    ref = Ref(case["segs"])
-    reach = ref.reach(case["root"])
+    ref = Ref(segs)
+    root = op["root"]
+    reach = ref.reach(root)
     before, after = real["before"], real["after"]
-    if case["root"] not in ref.by_id:
+    fresh = ref.adjacency()
+    # what later readers of `cell.adjacency_list` may find without being misled: no cache (they recompute), the
+    # cache the call found (same content), or the adjacency list of the morphology
+    cache_fine = [None, before["cache"], fresh]
+    if root not in ref.by_id:
         # malformed call (the root is no segment of the cell): the property does not apply; the call must refuse
-        # and leave the cell alone
+        # and leave the cell alone (it may have computed the adjacency list)
         if real["res"] != "ValueError":
-            fails.append(("bad-root-accepted", "root %s is no segment, outcome %s" % (case["root"], real["res"])))
-        elif before != after:
+            fails.append(("bad-root-accepted", "root %s is no segment, outcome %s" % (root, real["res"])))
+        elif strip_cache(before) != strip_cache(after):
             fails.append(("bad-root-changed-cell", ""))
+        elif after["cache"] not in cache_fine:
+            fails.append(("cache-corrupted", "adjacency_list %s -> %s" % (str(before["cache"])[:80], str(after["cache"])[:80])))
         return fails, reach
     if real["res"] != "ok":
         return [("exception:" + real["res"], "the call raised %s" % real["res"])], reach
@@ -523,7 +754,7 @@ def oracle(case, real):
             extra = sorted(set(flat) - set(reach))
             dup = sorted({x for x in flat if flat.count(x) > 1})
             fails.append(("partition", "missing=%s extra=%s twice=%s" % (miss[:6], extra[:6], dup[:6])))
-    par = {s["id"]: s["parent"] for s in case["segs"]}
+    par = {s["id"]: s["parent"] for s in segs}
     nk = lambda x: len(ref.kids.get(x, []))
     for g, ch in zip(new, chains):
         if not ch:
@@ -533,13 +764,13 @@ def oracle(case, real):
             fails.append(("chain", "%s: %s" % (g.get("id"), ch[:8])))
         if any(nk(a) != 1 for a in ch[:-1]):
             fails.append(("inner-branch", "%s: %s" % (g.get("id"), ch[:8])))
-        if not (ch[0] == case["root"] or nk(par.get(ch[0])) >= 2):
+        if not (ch[0] == root or nk(par.get(ch[0])) >= 2):
             fails.append(("not-maximal-top", "%s starts at %s" % (g.get("id"), ch[0])))
         if nk(ch[-1]) == 1:
             fails.append(("not-maximal-bottom", "%s ends at %s" % (g.get("id"), ch[-1])))
         first = [s for s in after["segs"] if s["id"] == ch[0]]
         if not first or first[0].get("proximal") is None:
-            fails.append(("root-proximal-missing" if ch[0] == case["root"] else "first-proximal-missing",
+            fails.append(("root-proximal-missing" if ch[0] == root else "first-proximal-missing",
                           "first segment %s of %s has no explicit proximal" % (ch[0], g.get("id"))))
         if g.get("includes"):
             fails.append(("new-group-includes", g.get("id")))
@@ -562,13 +793,9 @@ def oracle(case, real):
             got = None if pa is None else [Fr(pa[k]) for k in ("x", "y", "z", "diameter")]
             if imp is None or got != imp:
                 fails.append(("explicit-proximal-differs-from-implied", "segment %s: %s vs implied %s" % (b.get("id"), got, imp)))
-    segs_after = []
-    for s, a in zip(case["segs"], after["segs"]):
-        p = a.get("proximal")
-        segs_after.append(dict(s, prox=None if p is None else [q(Fr(p[k])) for k in ("x", "y", "z", "diameter")]))
     if len(before["segs"]) == len(after["segs"]):
-        ref2 = Ref(segs_after)
-        for s in case["segs"]:
+        ref2 = Ref(desc_of(after["segs"]))
+        for s in segs:
             i1, i2 = ref.implied(s["id"]), ref2.implied(s["id"])
             if i1 != i2:
                 fails.append(("actual-proximal-changed", "segment %s: %s -> %s" % (s["id"], i1, i2)))
@@ -579,15 +806,19 @@ def oracle(case, real):
                     fails.append(("length-changed", "segment %s" % s["id"]))
     if before["n_other"] != after["n_other"]:
         fails.append(("morphology-changed", "%s -> %s" % (before["n_other"], after["n_other"])))
-    # pre-existing groups
+    # the cached adjacency list: what later calls (this method again, get_graph) will read.  It must be the one the
+    # call found (same content) or the adjacency list of the morphology (or be absent); WHICH of these is decided by
+    # the model (correspondence), not by the property
+    if after["cache"] not in cache_fine:
+        fails.append(("cache-corrupted", "adjacency_list %s -> %s (the morphology says %s)" % (
+            str(before["cache"])[:80], str(after["cache"])[:80], str(fresh)[:80])))
+    # pre-existing groups (everything that was there before THIS call, earlier calls' groups included)
     bg, ag = before["groups"], after["groups"]
     olds_after = [g for g in ag if g.get("id") in old_ids]
     if len(olds_after) != len(bg):
         fails.append(("old-group-lost-or-duplicated", "%d -> %d" % (len(bg), len(olds_after))))
     else:
-        if case["reorder"]:
-            key = lambda g: json.dumps(g, sort_keys=True)
-            moved = [g for g in bg if g.get("id") in DEFAULT_GROUPS]
+        if op["reorder"]:
             stay_b = [g.get("id") for g in bg if g.get("id") not in DEFAULT_GROUPS]
             stay_a = [g.get("id") for g in olds_after if g.get("id") not in DEFAULT_GROUPS]
             if stay_b != stay_a:
@@ -604,7 +835,7 @@ def oracle(case, real):
             pairs = list(zip(bg, ag[:len(bg)]))
             if [g.get("id") for g in bg] != [g.get("id") for g in ag[:len(bg)]]:
                 fails.append(("old-group-order", "old groups are not the prefix of the group list"))
-        all_ids = [s["id"] for s in case["segs"]]
+        all_ids = [s["id"] for s in segs]
         gb = {}
         for g in bg:
             gb.setdefault(g.get("id"), g)
@@ -615,7 +846,7 @@ def oracle(case, real):
             if g == h:
                 continue
             clean = not g.get("includes") and len({x["segments"] for x in g.get("members", [])}) == len(g.get("members", []))
-            if not case["optimise"] or clean:
+            if not op["optimise"] or clean:
                 fails.append(("old-group-changed", "%s: %s -> %s" % (g.get("id"), json.dumps(g)[:150], json.dumps(h)[:150])))
                 continue
             g2 = {k: v for k, v in g.items() if k not in ("members", "includes")}
@@ -631,95 +862,137 @@ def oracle(case, real):
     return fails, reach
 
 
-def requested_names(case, ref):
+def oracle_other(segs, op, real):
+    """frame conditions of the other operations of a history (they are library calls too)"""
+    fails = []
+    before, after = real["before"], real["after"]
+    fresh = Ref(segs).adjacency()
+    if real["res"] != "ok":
+        return [("exception:" + real["res"], "%s raised %s" % (op["op"], real["res"]))]
+    if op["op"] in ("refresh", "ensure"):
+        if strip_cache(before) != strip_cache(after):
+            fails.append(("cache-reader-changed-cell", op["op"]))
+        fine = [fresh] if op["op"] == "refresh" else [None, before["cache"], fresh]
+        if after["cache"] not in fine:
+            fails.append(("cache-corrupted", "%s: adjacency_list %s, the morphology says %s" % (op["op"], str(after["cache"])[:80], str(fresh)[:80])))
+    return fails
+
+
+def requested_names(groups, root, ref, nsegs):
     """the group names the call asks add_unbranched_segment_group for (documented scheme f"seg_group_{k}_seg_{id}",
     k = number of groups when the root group is made, afterwards number of groups - 1), chain heads in pre-order"""
-    ids = [g["id"] for g in case["groups"]]
+    ids = list(groups)
     names = []
 
     def ask(nm):
         names.append(nm)
         if nm not in ids:
             ids.append(nm)
-    ask("seg_group_%d_seg_%d" % (len(ids), case["root"]))
-    todo = [case["root"]]
+    ask("seg_group_%d_seg_%d" % (len(ids), root))
+    todo = [root]
     guard = 0
-    while todo and guard < 4 * len(case["segs"]) + 10:
+    while todo and guard < 4 * nsegs + 10:
         guard += 1
         x = todo.pop()
         if isinstance(x, tuple):
             ask("seg_group_%d_seg_%d" % (len(ids) - 1, x[0]))
             x = x[0]
         ks = ref.kids.get(x, [])
-        while len(ks) == 1:
+        steps = 0
+        while len(ks) == 1 and steps <= nsegs:
+            steps += 1
             x = ks[0]
             ks = ref.kids.get(x, [])
         todo.extend((c,) for c in reversed(ks))
     return names
 
 
-def classify(case, real, fails):
-    """deterministic key of a failing case (the input class first, then the clause)"""
-    ref = Ref(case["segs"])
-    cache = case["cache"]
-    if isinstance(cache, dict):
-        fresh = {}
-        for s in case["segs"]:
-            if s["parent"] is not None:
-                fresh.setdefault(s["parent"], []).append(s["id"])
-        if "prefix" in cache:
-            cur = {}
-            for s in case["segs"][:cache["prefix"]]:
-                if s["parent"] is not None:
-                    cur.setdefault(s["parent"], []).append(s["id"])
-        else:
-            cur = {p: list(cs) for p, cs in cache["adj"]}
-        if cur != fresh:
-            return "C16:stale-adjacency-cache"
+def classify(segs, op, real, fails, F=None):
+    """deterministic key of a failing sectioning call (the input class first, then the clause)"""
+    ref = Ref(segs)
+    cb = real["before"]["cache"]
+    if cb is not None and cb != ref.adjacency():
+        return "C16:stale-adjacency-cache"
     old_ids = [g.get("id") for g in real["before"]["groups"]]
-    if any(nm in old_ids for nm in requested_names(case, ref)):
+    if any(nm in old_ids for nm in requested_names(old_ids, op["root"], ref, len(segs))):
         return "C16:generated-name-collision"
     if real["res"] == "RecursionError":
-        nest, pn, pa = ref.nest_and_pressure(case["root"])
-        return "C16:recursion-limit:" + ("implied-proximal-chain" if pa >= pn + 5 else "nested-branch-points")
+        # by cause: does the deepest chain of implied proximals (the recursion of get_actual_proximal) exceed the
+        # frames that were available?  otherwise the recursion is the sectioniser's own
+        nest, pn, pa = ref.nest_and_pressure(op["root"])
+        avail = (F if F is not None else frames_default()) - FRAME_OFFSET
+        return "C16:recursion-limit:" + ("implied-proximal-chain" if pa > avail - 4 else "nested-branch-points")
     return "C16:" + fails[0][0]
 
 
 def check_case(ctx, case, mout):
-    real = run_real(case)
-    ref = Ref(case["segs"])
-    reach = ref.reach(case["root"])
-    nest = ref.nest_and_pressure(case["root"])[0] if reach is not None else 0
-    canon = {k: case[k] for k in ("segs", "groups", "root", "use_convention", "reorder", "optimise", "cache", "F")}
+    case = norm_case(case)
+    steps = run_real(case)
+    msteps = mout.get("steps") if isinstance(mout, dict) else None
+    ref0 = Ref(case["segs"])
+    root0 = case["ops"][0]["root"]
+    reach0 = ref0.reach(root0)
+    nest = ref0.nest_and_pressure(root0)[0] if reach0 is not None else 0
+    canon = {k: case[k] for k in ("segs", "groups", "cache", "F", "ops")}
     ctx.seen(canon, nontrivial=nest >= 1)
-    ctx.count("res:" + real["res"])
+    nsect = sum(1 for o in case["ops"] if o["op"] == "sect")
+    ctx.count("history:sect-calls=%s" % (nsect if nsect < 4 else "4+"))
     ctx.count("nest:%s" % (nest if nest < 3 else ("3-9" if nest < 10 else "10+")))
     ctx.count("n:%s" % (len(case["segs"]) if len(case["segs"]) < 8 else ("8-40" if len(case["segs"]) <= 40 else "41+")))
     ctx.count("cache:" + ("none" if case["cache"] is None else case["cache"] if isinstance(case["cache"], str) else sorted(case["cache"])[0]))
-    ctx.count("flags:reorder=%d,optimise=%d" % (case["reorder"], case["optimise"]))
-    ctx.count("root:" + ("no-such-segment" if case["root"] not in ref.by_id else
-                         "true-root" if ref.by_id[case["root"]]["parent"] is None else "inner"))
-    if real["alias"]:
-        ctx.count("explicit-proximal-aliases-a-distal-object", real["alias"])
-    if mout.get("hyp"):
-        ctx.count("theorem-hypotheses-hold(hypB)")
-    # --- correspondence with the Lean model
+    if nest >= 17 and case["F"] is not None and case["F"] < nest + 16:
+        ctx.count("nested-branch-points-exceed-frames(old code: RecursionError)")
     ctx.corr_evals += 1
-    cm, cr = canon_model(mout), canon_real(real, mout)
-    if cm != cr:
-        ctx.disagree("section-model", case, cr, cm)
-    # --- full-property oracle on the real code
-    fails, _ = oracle(case, real)
-    if fails:
-        key = classify(case, real, fails)
-        ctx.fail(key, "; ".join("%s (%s)" % f for f in fails[:4]), case)
-    elif mout.get("hyp") is False and case["cache"] is None and real["res"] == "ok":
-        ctx.count("ok-outside-theorem-hypotheses")
-    if mout.get("hyp") and fails and cm == cr:
-        # model and code agree, the theorems' hypotheses hold (hypB), yet the oracle rejects: oracle and theorems
-        # disagree about what the property says -- a defect of the machinery, surfaced as a broken obligation
-        ctx.disagree("oracle-vs-theorems", case, [f[0] for f in fails], "hypB=true")
-    return real
+    if msteps is None:
+        ctx.disagree("section-model", case, "driver output", mout)
+        msteps = []
+    roots_before = []
+    for k, st in enumerate(steps):
+        op = st["op"]
+        m = msteps[k] if k < len(msteps) else {"res": "model-has-no-such-step"}
+        segs_now = desc_of(st["before"]["segs"])
+        ctx.count("op:" + op["op"])
+        # --- correspondence with the Lean model: the whole state of the cell object after the operation
+        cm, cr = canon_model(m), canon_real(st, m)
+        if cm != cr:
+            ctx.disagree("section-model", {"case": case, "step": k}, cr, cm)
+        if op["op"] != "sect":
+            f2 = oracle_other(segs_now, op, st)
+            if f2:
+                ctx.fail("C16:" + f2[0][0], "; ".join("%s (%s)" % f for f in f2[:4]), case)
+            continue
+        ref = Ref(segs_now)
+        ctx.count("res:" + st["res"])
+        ctx.count("flags:reorder=%d,optimise=%d" % (op["reorder"], op["optimise"]))
+        ctx.count("root:" + ("no-such-segment" if op["root"] not in ref.by_id else
+                             "true-root" if ref.by_id[op["root"]]["parent"] is None else "inner"))
+        if roots_before:
+            rb = set()
+            for r0 in roots_before:
+                rb |= set(ref.reach(r0) or [])
+            ctx.count("later-call:" + ("same-root" if op["root"] in roots_before else
+                                       "inside-earlier-tree" if op["root"] in rb else "elsewhere"))
+        roots_before.append(op["root"])
+        cb = st["before"]["cache"]
+        ctx.count("cache-at-call:" + ("none" if cb is None else "fresh" if cb == ref.adjacency() else "stale"))
+        if st["alias"]:
+            ctx.count("explicit-proximal-aliases-a-distal-object", st["alias"])
+        if m.get("hyp"):
+            ctx.count("theorem-hypotheses-hold(hypB)")
+        # --- full-property oracle on the real code, relative to the cell at the time of this call
+        fails, _ = oracle(segs_now, op, st)
+        if fails:
+            key = classify(segs_now, op, st, fails, case["F"])
+            ctx.fail(key, "call %d of the history: " % k + "; ".join("%s (%s)" % f for f in fails[:4]), case)
+        elif m.get("hyp") is False and st["res"] == "ok":
+            ctx.count("ok-outside-theorem-hypotheses")
+        if m.get("hyp") and fails and cm == cr:
+            # model and code agree, the theorems' hypotheses hold (hypB), yet the oracle rejects: oracle and theorems
+            # disagree about what the property says -- a defect of the machinery, surfaced as a broken obligation
+            ctx.disagree("oracle-vs-theorems", {"case": case, "step": k}, [f[0] for f in fails], "hypB=true")
+    if len(msteps) != len(steps):
+        ctx.disagree("section-model", case, "%d steps" % len(steps), "%d steps" % len(msteps))
+    return steps
 
 
 # ---------------------------------------------------------------- corpus
@@ -736,9 +1009,9 @@ Y = [S(10, None, 1, P(0, 0, 0, 2), P(10, 0, 0, 2)), S(3, 10, 1, None, P(20, 0, 0
      S(20, 8, Fr(1, 4), None, P(40, 0, 0, 1)), S(21, 7, 0, None, P(20, 20, 0, 1))]
 
 
-def _case(segs, root, groups=(), cache=None, F=120, reorder=True, optimise=True, use_convention=True):
-    return {"segs": copy.deepcopy(segs), "groups": copy.deepcopy(list(groups)), "root": root,
-            "use_convention": use_convention, "reorder": reorder, "optimise": optimise, "cache": cache, "F": F}
+def _case(segs, root, groups=(), cache=None, F=120, reorder=True, optimise=True, use_convention=True, more=()):
+    return {"segs": copy.deepcopy(segs), "groups": copy.deepcopy(list(groups)), "cache": cache, "F": F,
+            "ops": [sect_op(root, use_convention, reorder, optimise)] + copy.deepcopy(list(more))}
 
 
 def G(i, members=(), includes=(), nlx=None, notes=None):
@@ -768,27 +1041,44 @@ CORPUS = [
     # FIXED (fixes/C16-root-proximal.patch): inner segment without explicit proximal as the root
     _case(Y, 3, [], reorder=False, optimise=False),
     # KNOWN: a pre-existing group carrying a generated name is reused (here: not even marked as a section)
-    _case(Y, 10, [G("seg_group_0_seg_7", [10])], reorder=False, optimise=False),
+    _case(Y, 10, [G("seg_group_1_seg_7", [10])], reorder=False, optimise=False),
     _case(Y, 10, [G("seg_group_1_seg_10", [8], nlx=SECTION)]),
     # KNOWN: stale adjacency_list cache (computed when only the first two segments existed)
     _case(Y, 10, [], cache={"prefix": 2}),
     # KNOWN: hand-made cache with an empty child list: the segment is dropped
     _case(Y, 10, [], cache={"adj": [[10, [3]], [3, []]]}),
-    # KNOWN: nested branch points beyond the available frames (60 frames, 80 nested branch points)
+    # FIXED (fixes/C16-iterative-sectionise.patch): nested branch points beyond the available frames (60 frames,
+    # 80 nested branch points): the recursive sectioniser raised RecursionError
     _case(_caterpillar(80), 0, [], F=60),
     # KNOWN: a long chain of implied proximals (fraction 0) above a branch point: get_actual_proximal recurses
     _case(_fchain(90), 0, [], F=70),
     # the same shapes with enough frames
     _case(_caterpillar(30), 0, [], F=80),
     _case(_fchain(30), 0, [], F=80),
+    # HISTORIES on one cell object.  whole cell, the same root again, a sub-tree, with the cache the first call left
+    _case(Y, 10, [G("soma_group", [10])], reorder=False, optimise=False,
+          more=[sect_op(10, True, False, False), sect_op(3, False, True, True), {"op": "ensure"}, sect_op(8, True, False, True)]),
+    # sub-tree first, then the whole cell; a reader of the cache and a refresh in between
+    _case(Y, 7, [], more=[{"op": "ensure"}, sect_op(10), {"op": "refresh"}, sect_op(10, True, False, False)]),
+    # the morphology grows between two calls and the cache is refreshed: the second call sees the new segment
+    _case(Y, 10, [], more=[{"op": "append", "seg": S(30, 21, 1, None, P(20, 30, 0, 1))},
+                           {"op": "append", "seg": S(31, 21, Fr(1, 2), None, P(30, 30, 0, 1))},
+                           {"op": "refresh"}, sect_op(10, True, True, False)]),
+    # KNOWN (stale cache, as a history): the same without the refresh -- the cache the FIRST call left is reused
+    _case(Y, 10, [], more=[{"op": "append", "seg": S(30, 21, 1, None, P(20, 30, 0, 1))},
+                           {"op": "append", "seg": S(31, 21, Fr(1, 2), None, P(30, 30, 0, 1))},
+                           sect_op(10, True, True, False)]),
+    # a user group added between two calls; second call from an inner segment with every pass on
+    _case(Y, 10, [G("all", [10], [])], more=[{"op": "addGroup", "group": G("apical", [20, 21], nlx=SECTION)}, sect_op(8)]),
 ]
 CORPUS_THOROUGH = [
-    # KNOWN, at the interpreter's own default limit: 1100 nested branch points
+    # FIXED, at the interpreter's own default limit: 1100 nested branch points
     _case(_caterpillar(1100), 0, [], F=None, reorder=False, optimise=False),
 ]
 
 
 def run_cases(ctx, cases):
+    cases = [norm_case(c) for c in cases]
     lines = [model_line(c) for c in cases]
     rc, out = fw.run_driver("C16", lines)
     if rc != 0 or len(out) != len(lines):
@@ -805,8 +1095,27 @@ def run_cases(ctx, cases):
         check_case(ctx, c, m)
         if len(c["segs"]) <= 8:
             ctx.sample({"segs": [[s["id"], s["parent"], "%d/%d" % tuple(s["frac"]), s["prox"] is not None] for s in c["segs"]],
-                        "groups": [g["id"] for g in c["groups"]], "root": c["root"], "cache": c["cache"],
-                        "flags": [c["use_convention"], c["reorder"], c["optimise"]]})
+                        "groups": [g["id"] for g in c["groups"]], "cache": c["cache"],
+                        "ops": [[o["op"]] + ([o["root"], o["use_convention"], o["reorder"], o["optimise"]] if o["op"] == "sect" else [])
+                                for o in c["ops"]]})
+
+
+def measure_frame_offset(ctx):
+    """re-measure, on the tree under test, how many frames the real call needs beyond what the model counts for a
+    chain of implied proximals (the only recursion left): smallest F for which _fchain(24) goes through minus the
+    model's need.  Recorded in the evidence; generated cases stay >= 10 frames away from the threshold."""
+    segs = _fchain(24)
+    need = Ref(segs).nest_and_pressure(0)[2]
+    lo = None
+    for F in range(need - 4, need + 24):
+        st = run_real(_case(segs, 0, [], F=F, reorder=False, optimise=False))
+        if st[-1]["res"] == "ok":
+            lo = F
+            break
+    ctx.extra["frame_offset_measured"] = None if lo is None else lo - need
+    ctx.extra["frame_offset_used"] = FRAME_OFFSET
+    if lo is None or abs((lo - need) - FRAME_OFFSET) > 5:
+        ctx.notes.append("frame accounting drifted: measured offset %s, harness uses %d" % (None if lo is None else lo - need, FRAME_OFFSET))
 
 
 def run(ctx):
@@ -820,19 +1129,37 @@ def run(ctx):
     cases += list(exhaustive_cases(rng, nmax))
     ctx.extra["exhaustive"] = True
     ctx.extra["exhaustive_scope"] = "all parent structures (parent(k) in 0..k-1) with <= %d segments" % nmax
-    # random cells
+    # random cells and histories
     for _ in range(ctx.n(1200, 12000) * ctx.search_mult):
         cases.append(gen_case(rng, big=thorough))
-    # caterpillars on both sides of the frame limit, chains longer than the recursion limit
+    # caterpillars: proximal chains on both sides of the frame limit; nesting far deeper than the frames available;
+    # chains longer than the recursion limit
     for _ in range(ctx.n(6, 40)):
-        cases.append(caterpillar_case(rng, rng.randint(20, 120), fail=rng.random() < 0.5, frac1=rng.random() < 0.5))
+        cases.append(caterpillar_case(rng, rng.randint(20, 120), fail=rng.random() < 0.5, frac1=rng.random() < 0.5,
+                                      small_frames=rng.random() < 0.5))
+    for _ in range(ctx.n(8, 40)):
+        cases.append(fchain_case(rng, rng.randint(65, 140), fail=rng.random() < 0.5))
     cases.append(chain_case(rng, ctx.n(1300, 5000)))
     cases.append(chain_case(rng, ctx.n(300, 1500), frac1=False))
+    measure_frame_offset(ctx)
     run_cases(ctx, cases)
+
+
+def regenerate(ctx):
+    """translator step: Cell.__sectionise / Cell.create_unbranched_segment_group_branches of the CURRENT working tree
+    (both helper_methods.py and nml.py) -> lean/NmlVerif/Gen/Section.lean; Props/C16Gen.lean proves the result equal
+    to the hand model"""
+    tdir = os.path.join(fw.VERIF, "translators")
+    if tdir not in sys.path:
+        sys.path.insert(0, tdir)
+    import py2lean_section
+    return py2lean_section.regenerate(fw.REPO, os.path.join(fw.LEAN, "NmlVerif", "Gen", "Section.lean"))
 
 
 def replay(ctx, payload):
     case = payload["case"]
+    if isinstance(case, dict) and "case" in case and "step" in case:
+        case = case["case"]
     run_cases(ctx, [case])
     return {"fails": bool(ctx.failures or ctx.corr_disagreements), "failures": ctx.failures,
             "disagreements": ctx.corr_disagreements}
